@@ -6,7 +6,7 @@ git -C /repo worktree add --detach -q "$W" HEAD || exit 2
 cp /repo/internal/cli/app/lib.zip "$W/internal/cli/app/"; cp /repo/internal/i18n/messages.go "$W/internal/i18n/"; cp /repo/go.sum "$W/"
 if ! git -C "$W" apply "$P"; then echo "PATCH DOES NOT APPLY"; git -C /repo worktree remove --force "$W"; exit 3; fi
 for c in "$@"; do
-  (cd /verif && VERIF_REPO="$W" ./check "$c" 2>&1 | grep -E "^VIOLATION|^KNOWN|OK tier|FAILED tier" | head -6)
+  (cd /verif && VERIF_REPO="$W" ./check "$c" 2>&1 | grep -E "^VIOLATION|OK tier|FAILED tier" | awk '/^VIOLATION/{n++; if(n<=3) print; next} {print}')
 done
 git -C /repo worktree remove --force "$W"
 H=$(python3 -c "import hashlib,sys; print(hashlib.sha1(sys.argv[1].encode()).hexdigest()[:8])" "$W"); rm -rf "/verif/.build/bin-$H" 2>/dev/null
